@@ -141,8 +141,17 @@ func runC19(c *fw.Case) {
 			}}
 		}
 	case 2, 3:
-		name := c19Catars[c.Draw(len(c19Catars), "catar")]
-		b, err := os.ReadFile(filepath.Join(repoDir(), name))
+		var b []byte
+		var err error
+		if c.Bool("catar.generated") {
+			// an archive of a generated tree (xattrs, devices, symlinks, odd names)
+			src := filepath.Join(c.Dir(), "src")
+			if _, err = genTree(c, src, 12); err == nil {
+				b, err = tarTree(src)
+			}
+		} else {
+			b, err = os.ReadFile(filepath.Join(repoDir(), c19Catars[c.Draw(len(c19Catars), "catar")]))
+		}
 		if err != nil {
 			c.HarnessError("%v", err)
 			return
